@@ -673,6 +673,42 @@ def gen_measurament(rng, count, nmax):
     return out
 
 
+def big_measurament_case(seed):
+    """`_measurament` on long registers / many measured qubits (9..17 qubits, up to all of them measured), with an independent
+    marginalisation as oracle: keys exactly the 2^m strings of the measured qubits, values the sums over the others (1e-12).
+    Returns (description, failure | None)."""
+    import random
+    rng = random.Random(seed)
+    n = rng.choice([9, 10, 12, 16, 17])
+    layout = sorted(rng.sample(range(n + 6), n))
+    m = rng.choice([1, 3, 8, 9, min(n, 10), min(n, 12)])
+    qs = rng.sample(layout, m)
+    if n >= 16 and layout[-1] not in qs:
+        qs[0] = layout[-1]
+    rs = np.random.RandomState(seed % (2 ** 31))
+    prob = rs.random_sample(2 ** n)
+    prob /= prob.sum()
+    desc = f"_measurament(prob of length 2^{n} (numpy RandomState({seed % (2 ** 31)}).random_sample, normalised), measured qubits {qs}, layout {layout})"
+    R = repo()
+    try:
+        res = R.Sim()._measurament(prob=prob.copy(), q_meas_list=[(q, c) for c, q in enumerate(qs)], n_qubit=n, qubits_layout=list(layout))
+    except Exception as e:              # noqa
+        return desc, f"raised {type(e).__name__}: {str(e)[:120]}"
+    pos = [layout.index(q) for q in qs]
+    t = prob.reshape([2] * n)
+    others = tuple(i for i in range(n) if i not in pos)
+    marg = t.sum(axis=others) if others else t
+    kept = [i for i in range(n) if i in pos]                      # axes of `marg` in ascending position order
+    marg = np.transpose(marg, [kept.index(p) for p in pos])       # into the order of the measure instructions
+    want = {format(k, "b").zfill(m): float(v) for k, v in enumerate(marg.reshape(-1))}
+    if set(res) != set(want):
+        return desc, f"{len(res)} keys returned, the {2 ** m} bit strings of the {m} measured qubits are expected (first keys {sorted(res)[:3]})"
+    k = max(want, key=lambda k: abs(want[k] - float(res[k])))
+    if abs(want[k] - float(res[k])) > 1e-12:
+        return desc, f"value of outcome {k!r} is {float(res[k])!r}, the marginal probability is {want[k]!r}"
+    return desc, None
+
+
 def run_measurament_real(c):
     R = repo()
     sim = R.Sim()
@@ -1051,6 +1087,18 @@ def main(ctx):
                        "note": note, "agrees_with_pinned_tree_model": legacy.get(i),
                        "broken": "correspondence MrAndersonSimulator.run vs QG.Model.RunValidate.run", "count": len(open_mism)},
                       "model and implementation disagree where the oracle has no complaint: " + note, no_failing_input=True)
+    big_bad = None
+    n_big = 10 if th else 4
+    for kbig in range(n_big):
+        sd = ctx.seed * 7919 + kbig
+        desc, bad = big_measurament_case(sd)
+        ctx.count()
+        if bad and big_bad is None:
+            big_bad = (sd, desc, bad)
+    cov["measurament_long_registers"] = n_big
+    if big_bad:
+        ctx.violation({"kind": "measurament-long-register"}, {"mode": "big-measurament", "seed": big_bad[0], "call": big_bad[1], "failure": big_bad[2]},
+                      f"{big_bad[1]}: {big_bad[2]}")
     if mmis:
         c, a, b = mmis[0]
         ctx.violation({"kind": "correspondence-measurament"}, {"call": c, "real": a, "model": b, "count": len(mmis),
@@ -1071,6 +1119,10 @@ def main(ctx):
 def replay(ctx, path):
     body = json.load(open(path))
     rp = body["replay"]
+    if rp.get("mode") == "big-measurament":
+        desc, bad = big_measurament_case(rp["seed"])
+        print(desc); print("oracle:", bad or "holds")
+        return 1 if bad else 0
     if "case" not in rp:
         print("replay names a broken obligation, no input to re-run:", json.dumps(rp)[:400]); return 1
     case = rp["case"]
